@@ -16,23 +16,27 @@ Proof. destruct a, b; cbn [enc]; intros H; try (f_equal; lia); try lia; reflexiv
 Definition sem_multi (r : mrule) : multirule :=
   mkMulti (map enc (mr_targets r)) (map enc (mr_deps r)) (map enc (mr_order r)) (mr_recipe r) (mr_phony r).
 Definition sem_rules (rs : list mrule) : list rule := expand (map sem_multi rs).
-Definition sem_step (st : step) : list rule :=
-  match emit_make_step st with Some rs => sem_rules rs | None => [] end.
-Definition sem_steps (steps : list step) : list rule := flat_map sem_step steps.
+Definition sem_step (fx : bool) (st : step) : list rule :=
+  match emit_make_step fx st with Some rs => sem_rules rs | None => [] end.
+Definition sem_steps (fx : bool) (steps : list step) : list rule := flat_map (sem_step fx) steps.
 
 Lemma sem_rules_app a b : sem_rules (a ++ b) = sem_rules a ++ sem_rules b.
 Proof. unfold sem_rules, expand. now rewrite map_app, flat_map_app. Qed.
 
 (* the rules of the whole edge list are the concatenation of the rules of the steps *)
-Lemma sem_steps_emit steps rs : emit_make_steps steps = Some rs -> sem_rules rs = sem_steps steps.
+Lemma sem_steps_emit fx steps rs : emit_make_steps fx steps = Some rs -> sem_rules rs = sem_steps fx steps.
 Proof.
   revert rs; induction steps as [|st r IH]; intros rs E; cbn in E.
   - now injection E as <-.
-  - destruct (emit_make_step st) as [a|] eqn:Ea; [|discriminate].
-    destruct (emit_make_steps r) as [b|] eqn:Eb; [|discriminate].
+  - destruct (emit_make_step fx st) as [a|] eqn:Ea; [|discriminate].
+    destruct (emit_make_steps fx r) as [b|] eqn:Eb; [|discriminate].
     assert (rs = a ++ b) by congruence. subst rs.
     rewrite sem_rules_app. cbn [sem_steps flat_map]. unfold sem_step at 1. rewrite Ea. f_equal. now apply IH.
 Qed.
+
+Section WithVariant.
+(* which variant of multitarget_rule wrote the rules (Graph/Emit.v); single-output steps do not depend on it *)
+Variable fx : bool.
 
 (* one output, a recipe, not phony *)
 Definition simple (st : step) : bool :=
@@ -66,7 +70,7 @@ Definition wf_script (steps : list step) : Prop :=
 Lemma simple_sem st : simple st = true ->
   exists o D ord,
     s_outputs st = [o] /\
-    sem_step st = [mkRule (encF (o_file o)) (map encF D) (map enc ord) true false] /\
+    sem_step fx st = [mkRule (encF (o_file o)) (map encF D) (map enc ord) true false] /\
     (forall n, In n ord -> exists d, n = NDir d) /\
     (shape_ok st = true -> set_eq D (consumed st)).
 Proof.
@@ -74,16 +78,16 @@ Proof.
   destruct (s_outputs st) as [|o [|]] eqn:Eo; try discriminate. clear Ho.
   assert (Hdir : forall n, In n (directory_deps [o]) -> exists d, n = NDir d).
   { intros n Hn. unfold directory_deps in Hn. apply in_map_iff in Hn as [d [<- _]]. now exists d. }
-  assert (G : forall D ord ph, ph = false -> emit_make_step st = Some [mkM [NF (o_file o)] (fs_ D) ord true ph] ->
+  assert (G : forall D ord ph, ph = false -> emit_make_step fx st = Some [mkM [NF (o_file o)] (fs_ D) ord true ph] ->
               (forall n, In n ord -> exists d, n = NDir d) ->
               exists o0 D0 ord0, [o] = [o0] /\
-                sem_step st = [mkRule (encF (o_file o0)) (map encF D0) (map enc ord0) true false] /\
+                sem_step fx st = [mkRule (encF (o_file o0)) (map encF D0) (map enc ord0) true false] /\
                 (forall n, In n ord0 -> exists d, n = NDir d) /\ (shape_ok st = true -> set_eq D0 (consumed st))).
   { intros D ord ph -> E Hord. exists o, D, ord. split; [reflexivity|]. split.
     - unfold sem_step. rewrite E. unfold sem_rules, expand, expand1, sem_multi. cbn.
       unfold fs_. rewrite map_map. reflexivity.
     - split; [assumption|]. intros Hs.
-      destruct (deps_exact_make st _ (o_file o) Hs E) as [l [El Sl]]; [unfold outs; rewrite Eo; now left|].
+      destruct (deps_exact_make fx st _ (o_file o) Hs E) as [l [El Sl]]; [unfold outs; rewrite Eo; now left|].
       rewrite make_prereqs_single in El by (cbn; now rewrite N.eqb_refl). now injection El as <-. }
   unfold emit_make_step in G. rewrite Eo in G. destruct (s_kind st); try discriminate.
   - eapply G; [reflexivity|reflexivity|assumption].
@@ -94,10 +98,10 @@ Proof.
 Qed.
 
 Lemma sem_targets steps : Forall (fun st => simple st = true /\ shape_ok st = true) steps ->
-  targets (sem_steps steps) = map encF (flat_map outs steps).
+  targets (sem_steps fx steps) = map encF (flat_map outs steps).
 Proof.
   induction 1 as [|st r [Hs _] _ IH]; [reflexivity|].
-  cbn [sem_steps flat_map]. unfold targets in *. rewrite !map_app. fold (sem_steps r). rewrite IH. f_equal.
+  cbn [sem_steps flat_map]. unfold targets in *. rewrite !map_app. fold (sem_steps fx r). rewrite IH. f_equal.
   destruct (simple_sem st Hs) as (o & D & ord & Eo & E & _). rewrite E. unfold outs. rewrite Eo. reflexivity.
 Qed.
 
@@ -122,18 +126,18 @@ Qed.
 Lemma nodup_app_r {T} (a b : list T) : NoDup (a ++ b) -> NoDup b.
 Proof. induction a as [|x a IH]; cbn; [auto|]. intros H. inversion H. auto. Qed.
 
-Lemma wf_wfb steps : wf_script steps -> wfb (sem_steps steps) = true.
+Lemma wf_wfb steps : wf_script steps -> wfb (sem_steps fx steps) = true.
 Proof.
   intros (Hs & Hnd & Hord). induction Hs as [|st r [Hsim Hshape] Hr IH]; [reflexivity|].
   cbn [flat_map] in Hnd. pose proof (nodup_app_r _ _ Hnd) as Hnd'. destruct Hord as [Hp Hord'].
   specialize (IH Hnd' Hord').
   destruct (simple_sem st Hsim) as (o & D & ord & Eo & E & Hdir & HD). specialize (HD Hshape).
-  cbn [sem_steps flat_map]. rewrite E. fold (sem_steps r). cbn [app wfb].
+  cbn [sem_steps flat_map]. rewrite E. fold (sem_steps fx r). cbn [app wfb].
   rewrite IH, andb_true_r. apply andb_true_iff. split.
   - apply forallb_forall. intros p Hin. cbn [r_prereqs r_order] in Hin. apply negb_true_iff.
-    change (mkRule (encF (o_file o)) (map encF D) (map enc ord) true false :: sem_steps r)
-      with ([mkRule (encF (o_file o)) (map encF D) (map enc ord) true false] ++ sem_steps r).
-    unfold targets. rewrite map_app. fold (targets (sem_steps r)). rewrite (sem_targets r Hr). cbn [map r_target app].
+    change (mkRule (encF (o_file o)) (map encF D) (map enc ord) true false :: sem_steps fx r)
+      with ([mkRule (encF (o_file o)) (map encF D) (map enc ord) true false] ++ sem_steps fx r).
+    unfold targets. rewrite map_app. fold (targets (sem_steps fx r)). rewrite (sem_targets r Hr). cbn [map r_target app].
     change (encF (o_file o) :: map encF (flat_map outs r)) with (map encF (o_file o :: flat_map outs r)).
     apply in_app_or in Hin as [Hin|Hin].
     + apply in_map_iff in Hin as [q [<- Hq]]. rewrite memf_enc_map.
@@ -146,7 +150,7 @@ Proof.
 Qed.
 
 Lemma sem_all_recipes steps : Forall (fun st => simple st = true /\ shape_ok st = true) steps ->
-  forall r, In r (sem_steps steps) -> r_recipe r = true /\ r_phony r = false.
+  forall r, In r (sem_steps fx steps) -> r_recipe r = true /\ r_phony r = false.
 Proof.
   induction 1 as [|st l [Hs _] _ IH]; intros r Hr; [destruct Hr|].
   cbn [sem_steps flat_map] in Hr. apply in_app_or in Hr as [Hr|Hr]; [|now apply IH].
@@ -169,11 +173,11 @@ Proof.
 Qed.
 
 Lemma down_script x steps : Forall (fun st => simple st = true /\ shape_ok st = true) steps ->
-  forall d, fold_left (down_step (encF x)) (sem_steps steps) (map encF d) =
+  forall d, fold_left (down_step (encF x)) (sem_steps fx steps) (map encF d) =
             map encF (fold_left (sdown_step x) steps d).
 Proof.
   induction 1 as [|st l [Hs Hsh] _ IH]; intros d; [reflexivity|].
-  cbn [sem_steps flat_map]. rewrite fold_left_app. fold (sem_steps l). cbn [fold_left].
+  cbn [sem_steps flat_map]. rewrite fold_left_app. fold (sem_steps fx l). cbn [fold_left].
   destruct (simple_sem st Hs) as (o & D & ord & Eo & E & _ & HD). specialize (HD Hsh). rewrite E.
   cbn [fold_left]. unfold down_step at 2. cbn [r_recipe r_prereqs r_target andb].
   assert (Ex : existsb (fun p => (p =? encF x) || memf p (map encF d)) (map encF D) =
@@ -192,7 +196,7 @@ Qed.
 (* ------------------------------------------------------------------ C03_rebuild_exact *)
 Theorem rebuild_exact steps f clk x :
   wf_script steps -> fs_below f clk ->
-  let rs := sem_steps steps in
+  let rs := sem_steps fx steps in
   let s1 := build rs f clk in
   b_fail s1 = None ->
   b_log (build rs (b_fs s1) (b_clk s1)) = [] /\
@@ -212,3 +216,4 @@ Proof.
     split; [exact F|]. cbn zeta. rewrite L. unfold down, script_down.
     exact (down_script x steps Hs []).
 Qed.
+End WithVariant.
